@@ -1,4 +1,5 @@
 import SimVerif.Gen.LTrack
+import SimVerif.Gen.LTrackDist
 import SimVerif.Model.Track
 /-!
 # Tie (DESIGN.md 14.8 / 14.11): `Track::add_observation` and `Track::merge` as the Rust source has them now
@@ -399,6 +400,43 @@ theorem tie_track_merge (cb : Cb TA M (Option A × Option F) U Q E) (junkA : TA 
         { attrs := a, obs := dst.obs, metric := dst.metric, any := false } with
     | error e => simp [liftErr]
     | ok st => simp [liftErr, reprSt]
+
+/-! ### `Track::distances` -/
+
+theorem filterMap_cartProd {α β γ : Type} (f : α × β → Option γ) (l : List α) (r : List β) :
+    List.filterMap f (cartProd l r) = l.flatMap (fun a => r.filterMap (fun b => f (a, b))) := by
+  unfold cartProd
+  induction l with
+  | nil => rfl
+  | cons a rest ih =>
+    simp only [List.flatMap_cons, List.filterMap_append, ih, List.filterMap_map]
+    rfl
+
+/-- **`Track::distances` of the source is the model's `distances`**: incompatible attributes are an error of their own, a class
+missing on either side is the missing-class error, otherwise exactly one result per pair of observations (left-major) for which
+the metric yields a value -/
+theorem tie_track_distances {OA : Type} (cb : Cb TA M OA U Q E) (t other : Track TA M OA) (cls : Nat) :
+    track_distances (M := M) cb.compatible (fun (x : Nat × TA × OA × TA × OA) => cb.metric x.1 x.2.1 x.2.2.1 x.2.2.2.1 x.2.2.2.2)
+        t.id t.attrs t.obs other.id other.attrs other.obs cls
+      = distances cb t other cls := by
+  unfold track_distances distances
+  by_cases hc : cb.compatible t.attrs other.attrs = true
+  · simp only [hc, Bool.not_true, Bool.false_eq_true, if_false, dbGet_eq_getObs]
+    cases getObs t.obs cls with
+    | none => rfl
+    | some l =>
+      cases getObs other.obs cls with
+      | none => rfl
+      | some r =>
+        simp only [filterMap_cartProd]
+        congr 1
+        refine congrArg (fun f => List.flatMap f l) ?_
+        funext a
+        refine congrArg (fun f => List.filterMap f r) ?_
+        funext b
+        cases cb.metric cls t.attrs a other.attrs b <;> rfl
+  · have hc' : cb.compatible t.attrs other.attrs = false := Bool.eq_false_iff.mpr hc
+    simp [hc']
 
 /-- non-vacuity: a failing optimisation after a successful attribute update; the source's answer is the error and the
 track as it was, although the callbacks left other values behind -/
